@@ -318,7 +318,10 @@ def gen_history(seed, index):
 
     for _ in range(n_ops):
         t = rng.random()
-        sd = float(f"{10 ** rng.uniform(-1.5, 0.5):.4g}") if level == 2 else None
+        sd = None
+        if level == 2:
+            # mostly ordinary SDs, sometimes very small or very large (valid: finite and positive)
+            sd = float(f"{10 ** rng.uniform(-1.5, 0.5):.4g}") if rng.random() < 0.85 else rng.choice([2e-9, 3e-12, 1e-15, 7e-8, 1e6])
         if want_filters and t < 0.12:
             m = rng.randrange(1, 8)
             U = []
